@@ -483,6 +483,10 @@ class FxGrammar(Case):
                 ta = ta0 if atomic else "( %s )" % ta0  # a compound operand is parenthesised; precedence and
                 # associativity are exercised by the explicit three-operand patterns below
                 nxt.append(("-%s" % ta, -va))
+                nxt.append(("- - %s" % ta, va))  # runs of unary minus signs in front of one operand
+                nxt.append(("- - - %s" % ta, -va))
+                nxt.append(("2 * - - %s" % ta, 2 * va))
+                nxt.append(("max - - - %s" % ta, self.STATS["max"] - va))  # binary minus, then two unary ones
                 nxt.append(("( %s )" % ta0, va))
                 for (tb, vb) in atoms[:5]:
                     nxt.append(("%s + %s" % (ta, tb), va + vb))
